@@ -524,6 +524,23 @@ impl Compress {
         res
     }
 
+    /// Returns the number of indirections required to read the trusted name
+    /// starting at `offset`.
+    fn indirections_count(packet: &[u8], mut offset: usize) -> usize {
+        let mut indirections = 0;
+        loop {
+            match packet[offset] {
+                0 => break,
+                len if len & 0xc0 == 0xc0 => {
+                    indirections += 1;
+                    offset = (BigEndian::read_u16(&packet[offset..]) & 0x3fff) as usize;
+                }
+                len => offset += 1 + len as usize,
+            }
+        }
+        indirections
+    }
+
     /// Compress a name starting at `offset` using the suffix dictionary `dict`
     /// `base_offset` is an additional offset added to the location stored in
     /// the dictionary. This function assumes that the input is trusted and
@@ -553,9 +570,14 @@ impl Compress {
             let output_offset = compressed.len();
             if let Some(ref_offset) = dict.insert(&packet[offset..final_offset], output_offset) {
                 assert!(output_offset < 65536 >> 2); // Checked in dict.insert()
-                compressed.push((ref_offset >> 8) as u8 | 0xc0);
-                compressed.push((ref_offset & 0xff) as u8);
-                break;
+                // Readers follow at most DNS_MAX_HOSTNAME_INDIRECTIONS pointers per name
+                if Self::indirections_count(compressed, ref_offset)
+                    < DNS_MAX_HOSTNAME_INDIRECTIONS as usize
+                {
+                    compressed.push((ref_offset >> 8) as u8 | 0xc0);
+                    compressed.push((ref_offset & 0xff) as u8);
+                    break;
+                }
             }
             let offset_next = offset + 1 + label_len;
             compressed.extend_from_slice(&packet[offset..offset_next]);
